@@ -61,14 +61,14 @@ func owedStorage(s *mon.State, h int64) (order sdk.Dec, market sdk.Dec) {
 
 // C04: order payment conservation.
 type C04 struct {
-	clients   map[string]bool // accounts on the client side (payers, owner payment addresses)
-	charges   int64           // number of charges (each may leave < 1 coin of rounding dust)
-	truncs    int64           // number of refund settlements (each may leave < 1 coin)
-	hold      map[uint64]*holding
-	earned    map[string]sdk.Dec // closed holdings per provider
-	consumed  map[string]sdk.Dec // whole coins taken out of the market account by claims, per provider
-	checks    int64
-	endings   map[string]int64
+	clients  map[string]bool // accounts on the client side (payers, owner payment addresses)
+	charges  int64           // number of charges (each may leave < 1 coin of rounding dust)
+	truncs   int64           // number of refund settlements (each may leave < 1 coin)
+	hold     map[uint64]*holding
+	earned   map[string]sdk.Dec // closed holdings per provider
+	consumed map[string]sdk.Dec // whole coins taken out of the market account by claims, per provider
+	checks   int64
+	endings  map[string]int64
 }
 
 type holding struct {
@@ -400,7 +400,7 @@ type C06 struct {
 	minted int64
 }
 
-func (m *C06) ID() string                        { return "C06" }
+func (m *C06) ID() string { return "C06" }
 func (m *C06) Tx(w *world.World, e *world.TxEvent) {
 	if e.Pre == nil || e.Post == nil {
 		return
